@@ -251,20 +251,90 @@ func c15RefIndex(rand uint64, q, sl, p, pass, slice, lane, index uint32) (l uint
 // Argon2id); all later phases receive m' = max(4p*floor(m/4p), 8p) (RFC 9106 section 3.2 step 3;
 // 8p blocks when the request is below the minimum), computed here in 64-bit arithmetic (so a
 // 32-bit overflow in the code would show), and the unchanged time/threads/keyLen/mode.
-func Verif_C15_Params() {
+// keyLen >= 1 is assumed (RFC 9106 requires a tag length T >= 4; keyLen = 0 makes blake2b.New(0)
+// fail and blake2bHash call a nil hash — outside the property). Native replay is possible only
+// for tiny parameters (see c15Params); for others the native run stops at an Assume.
+func Verif_C15_Params() { c15Params(false) }
+
+// Verif_C15_ParamsSmall: the same obligations restricted to time <= 1, threads <= 2, memory <= 40,
+// keyLen 1..40 (includes every request below the 8p minimum and non-multiples of 4p), so that a
+// counterexample replays natively: there the recorders are inactive and the assertions are
+// decided by comparing the real derived key with a key assembled from the package's own phases
+// called explicitly with the RFC parameters (H0 over the REQUESTED memory, m' blocks afterwards).
+func Verif_C15_ParamsSmall() { c15Params(true) }
+
+// c15NativeKey assembles the tag from the package's phases: H0 over (.., mH0, ..), then mBlocks
+// blocks of memory for initBlocks / processBlocks / extractKey.
+func c15NativeKey(mode int, pw, salt []byte, time, mH0, mBlocks, p, keyLen uint32) []byte {
+	h0 := initHash(pw, salt, nil, nil, time, mH0, p, keyLen, mode)
+	B := initBlocks(&h0, mBlocks, p)
+	processBlocks(B, time, mBlocks, p, mode)
+	return extractKey(B, mBlocks, p, keyLen)
+}
+
+func c15Same(a, b []byte) bool {
+	if len(a) != len(b) {
+		return false
+	}
+	for i := range a {
+		if a[i] != b[i] {
+			return false
+		}
+	}
+	return true
+}
+
+func c15Params(small bool) {
 	time, memory, keyLen := verifrt.U32(), verifrt.U32(), verifrt.U32()
 	threads := verifrt.U8()
 	id := verifrt.Choose(0, 1) == 1
 	pw, salt := verifrt.Bytes(1), verifrt.Bytes(1)
+	verifrt.Assume(keyLen >= 1)
+	if small || !verifrt.Symbolic() {
+		// native runs really execute Argon2
+		verifrt.Assume(time <= 1)
+		verifrt.Assume(threads <= 2)
+		verifrt.Assume(memory <= 40)
+		verifrt.Assume(keyLen <= 40)
+	}
+	var out []byte
 	c15Rec = true
 	panicked := verifrt.Panics(func() {
 		if id {
-			IDKey(pw, salt, time, memory, threads, keyLen)
+			out = IDKey(pw, salt, time, memory, threads, keyLen)
 		} else {
-			Key(pw, salt, time, memory, threads, keyLen)
+			out = Key(pw, salt, time, memory, threads, keyLen)
 		}
 	})
 	c15Rec = false
+	if !verifrt.Symbolic() {
+		// Native oracle (recorders inactive): same assertion labels, decided on the derived key.
+		if time < 1 || threads < 1 {
+			verifrt.Assert(panicked, "time < 1 or threads < 1 panics")
+			return
+		}
+		verifrt.Assert(!panicked, "valid parameters do not panic")
+		mode, p := argon2i, uint32(threads)
+		if id {
+			mode = argon2id
+		}
+		mp := memory / (4 * p) * (4 * p)
+		if mp < 8*p {
+			mp = 8 * p
+		}
+		if c15Same(out, c15NativeKey(mode, pw, salt, time, memory, mp, p, keyLen)) {
+			return
+		}
+		// Mismatch: if some other block count explains the key with H0 over the requested
+		// memory, the defect is in m'; otherwise H0 did not hash the requested parameters.
+		for m := 8 * p; m <= 64; m += 4 * p {
+			if m != mp && c15Same(out, c15NativeKey(mode, pw, salt, time, memory, m, p, keyLen)) {
+				verifrt.Assert(false, "m' = max(4p*floor(m/4p), 8p) for initBlocks")
+			}
+		}
+		verifrt.Assert(false, "H0 hashes the requested parameters")
+		return
+	}
 	if time < 1 || threads < 1 {
 		verifrt.Assert(panicked, "time < 1 or threads < 1 panics")
 		verifrt.Reach("rejected")
